@@ -1,7 +1,10 @@
 /-
 Model of the module loader of DemoHn/Zn (property C15), independent of the evaluator model.
 
-Mirrors, as repaired by patches/fix-c15-cycle-edge.patch and patches/fix-c15-module-exports.patch:
+Mirrors, as repaired by patches/fix-c15-cycle-edge.patch and patches/fix-c15-module-exports.patch; the finder of
+`LoadFile` has two variants: `Variant.repaired` = with fix 420e70b (a module name with a part that is empty, `.`, `..` or
+contains `/` or `\` is ModuleNotFound before any path is built), `Variant.pinned` = before it (any name is joined and
+cleaned by `filepath.Join`, so several names denote one file and `..` leaves the main file's directory):
 
   pkg/runtime/module.go   ParseLibName, ModuleGraph (AddModule, AddDependency, GetIDFromName),
                           checkCircularDepedencyDFS
@@ -122,21 +125,89 @@ def addZn : List Name → Option Path
 inductive Found
   | src (s : ModuleSrc)
   | emptySrc          -- LIB_TYPE_STD: empty source
-  | notFound          -- os.Stat says the file does not exist (ModuleNotFound)
+  | notFound          -- ModuleNotFound: the name is rejected, or os.Stat says the file does not exist
   | panic
 
-/-- LoadFile's finder with isMain = false.  `filepath.Join`'s cleaning of empty, `.` and `..` segments is not
-    modelled: names are assumed to have plain segments (ASSUMPTIONS of tools/props/c15.py). -/
-def finder (files : Files) (info : LibNameInfo) : Found :=
+/-- which tree the finder of `LoadFile` mirrors: `pinned` builds the path of any name with `filepath.Join` (which cleans
+    it); `repaired` (fix 420e70b) first rejects a name with a part that is not a plain file name -/
+inductive Variant
+  | pinned
+  | repaired
+  deriving DecidableEq, Repr
+
+def chSlash : Nat := 0x2F
+def chBackslash : Nat := 0x5C
+/-- "." -/
+def dot : Name := [0x2E]
+/-- ".." -/
+def dotdot : Name := [0x2E, 0x2E]
+
+/-- the test of the repaired `LoadFile` on one part of the name:
+    `part == "" || part == "." || part == ".." || strings.ContainsAny(part, "/\\")` is a rejection -/
+def validPart (p : Name) : Bool :=
+  !(p == [] || p == dot || p == dotdot || p.contains chSlash || p.contains chBackslash)
+
+/-- `for _, part := range dirs { if … { return nil, ModuleNotFound } }` -/
+def validParts (parts : List Name) : Bool := parts.all validPart
+
+/-- one component in `filepath.Clean`, on the components seen so far (last one first): an empty component and `.` are
+    dropped, `..` removes the component before it — or stays when there is none left (the path leaves the directory) -/
+def cleanStep (stack : List Name) (c : Name) : List Name :=
+  if c = [] ∨ c = dot then stack
+  else if c = dotdot then
+    match stack with
+    | [] => [dotdot]
+    | t :: r => if t = dotdot then dotdot :: t :: r else r
+  else c :: stack
+
+/-- `filepath.Join(rootDir, filepath.Join(dirs...))` read relative to `rootDir` (Linux: `/` is the only separator): the
+    elements are cut at every `/`, then cleaned.  Leading `..` components of the result denote directories ABOVE the
+    main file's directory (as deep as `rootDir` has parents; that a path may come back into `rootDir` through the
+    directory's own name is not modelled). -/
+def cleanPath (p : Path) : Path := ((p.flatMap (splitOn chSlash)).foldl cleanStep []).reverse
+
+/-- what `LoadFile` does with the parts of a custom module name before it looks at the file system -/
+inductive Resolved
+  | path (p : Path)     -- the file it will stat, relative to the main file's directory
+  | rejected            -- ModuleNotFound before any path is built (repaired tree only)
+  | panic               -- `dirs[len(dirs)-1]` on an empty slice
+  deriving DecidableEq, Repr
+
+def resolveParts (v : Variant) (parts : List Name) : Resolved :=
+  match v with
+  | .repaired =>
+    if validParts parts then
+      match addZn parts with
+      | some p => .path p       -- `filepath.Join` leaves such a path as it is (Proofs.ModulesFile.cleanPath_valid)
+      | none => .panic
+    else .rejected
+  | .pinned =>
+    match addZn parts with
+    | some p => .path (cleanPath p)
+    | none => .panic
+
+/-- LoadFile's finder with isMain = false, over a file table keyed by the path relative to the main file's directory
+    (a key may start with `..` components: a file outside that directory, which only the pinned finder can reach) -/
+def finder (v : Variant) (files : Files) (info : LibNameInfo) : Found :=
   match info.libType with
   | .std => .emptySrc
   | .vendor => .notFound      -- moduleFullPath = "" : os.Stat("") does not exist
   | .custom =>
-    match addZn info.libPath with
-    | none => .panic
-    | some p => match assoc p files with
+    match resolveParts v info.libPath with
+    | .panic => .panic
+    | .rejected => .notFound
+    | .path p => match assoc p files with
       | some s => .src s
       | none => .notFound
+
+/-- the file a module name denotes for the finder, if any (`none` for a library name, a rejected name, a panic) -/
+def resolveName (v : Variant) (n : Name) : Option Path :=
+  match (parseLibName n).libType with
+  | .custom =>
+    match resolveParts v (parseLibName n).libPath with
+    | .path p => some p
+    | _ => none
+  | _ => none
 
 /-! ## checkCircularDepedencyDFS -/
 
@@ -624,17 +695,18 @@ def redeclareExports : VM → List (Name × Val) → Res VM
     | .ok vm' => redeclareExports vm' r
 
 /-- execAnotherModule -/
-def loadModule (O : Oracle) (files : Files) (libs : Libs) (callFuel : Nat) : Nat → VM → LibNameInfo → Res (VM × Nat)
+def loadModule (v : Variant) (O : Oracle) (files : Files) (libs : Libs) (callFuel : Nat) :
+    Nat → VM → LibNameInfo → Res (VM × Nat)
   | 0, vm, _ => .err .loadFuel vm
   | f + 1, vm, info =>
-    match finder files info with
+    match finder v files info with
     | .panic => .err .panic vm
     | .notFound => .err (.code 60) vm
     | .emptySrc => .err (.code 60) vm      -- not reached: evalImportStmt never loads a std name this way
     | .src src =>
       let a := vm.allocateModule info.originalName
       let vm1 := (a.1.pushFrame a.2).record (.enter a.2)
-      match evalProgram O libs callFuel (loadModule O files libs callFuel f) vm1 a.2 src with
+      match evalProgram O libs callFuel (loadModule v O files libs callFuel f) vm1 a.2 src with
       | .err e vm' => .err e vm'
       | .ok vm2 =>
         match redeclareExports vm2.beginScope (O.exportOrder (vm2.exportsOf a.2)) with
@@ -657,23 +729,26 @@ def finish (r : Res VM) : Outcome :=
   | .err e vm => ⟨vm.trace.reverse, some e, vm⟩
 
 /-- EvalMainModule on the file `mainPath` -/
-def runWith (O : Oracle) (files : Files) (libs : Libs) (loadFuel callFuel : Nat) (mainSrc : ModuleSrc) : Res VM :=
+def runWith (v : Variant) (O : Oracle) (files : Files) (libs : Libs) (loadFuel callFuel : Nat) (mainSrc : ModuleSrc) :
+    Res VM :=
   let a := VM.init.allocateModule mainName
   let vm1 := (a.1.pushFrame a.2).record (.enter a.2)
-  match evalProgram O libs callFuel (loadModule O files libs callFuel loadFuel) vm1 a.2 mainSrc with
+  match evalProgram O libs callFuel (loadModule v O files libs callFuel loadFuel) vm1 a.2 mainSrc with
   | .err e vm' => .err e vm'
   | .ok vm2 =>
     match vm2.popFrame with
     | none => .err .panic vm2
     | some vm3 => .ok vm3
 
-/-- enough for every load: each nested load allocates a new module whose file exists -/
+/-- enough for every load of the repaired tree: each nested load allocates a new module whose file exists, and different
+    names have different files (on the pinned tree several names share one file, so this bound is not enough there: such a
+    run may end with `Err.loadFuel`) -/
 def loadFuelFor (files : Files) : Nat := files.length + 1
 
-def run (O : Oracle) (files : Files) (libs : Libs) (callFuel : Nat) (mainPath : Path) : Outcome :=
+def run (v : Variant) (O : Oracle) (files : Files) (libs : Libs) (callFuel : Nat) (mainPath : Path) : Outcome :=
   match assoc mainPath files with
   | none => ⟨[], some (.code 60), VM.init⟩
-  | some src => finish (runWith O files libs (loadFuelFor files) callFuel src)
+  | some src => finish (runWith v O files libs (loadFuelFor files) callFuel src)
 
 /-- the identity oracle used by the driver: DFS starts in first-occurrence order, exports in insertion order -/
 def Oracle.default : Oracle := ⟨fun g => nodes g, fun l => l⟩
